@@ -82,7 +82,7 @@ def configs(tier):
     """(library opt, client opt, lto, client compiler, shared)"""
     if tier == "quick":
         return [("-O0", "-O0", False, "gcc", False), ("-O0", "-O2", False, "gcc", False),
-                ("-O2", "-O2", False, "gcc", False), ("-O2", "-O2", True, "gcc", False)]
+                ("-O2", "-O2", False, "gcc", False), ("-O2", "-O2", True, "gcc", False), ("-O1", "-O1", True, "gcc", False)]
     out = []
     for lo in ("-O0", "-O2"):
         for co in ("-O0", "-O1", "-O2", "-O3", "-Os"):
